@@ -183,3 +183,387 @@ Theorem C11_eval_packed : forall n f args,
   below n f -> (forall l v, In (l, v) args -> l < n) -> eval_packed n f args = eval f args.
 Proof. exact eval_packed_eq. Qed.
 Print Assumptions C11_eval_packed.
+
+(* ======================================================================== *)
+(** * C11 on hash-consed tables (snapshot-level model)
+
+    The theorems above are about the TREE model DD/Tdd.v.  The theorems below
+    are about the same Rust functions modelled on the manager's state: a node
+    table [snap] (DD/Table.v) with unique table ([mk_node] = [reduce] "all three
+    children equal" + [get_or_insert]), the three hash-consed terminals, an
+    abstract apply cache keyed by ([TDDOp] code, normalised operands) and the
+    unobservable edge order [gt] (model: DD/ApplyTdd.v; proofs: DD/ApplyTdd*.v).
+    The logic is the one defined above: [tri], [k_not], [table], [ite3] of
+    DD/Tdd.v and their pointwise liftings [fn_not], [fn_bin], [fn_ite];
+    [DenT s r phi] = reference [r] of table [s] denotes [phi : tfun], i.e. the
+    interpreter [semk] returns the code of [phi a] under every three-valued
+    assignment [a] of the levels.  The extracted model is replayed on snapshots
+    of real TDD managers with the real operand edges (./check C11, stage 2). *)
+From Coq Require Import NArith PArith FMapPositive.
+From OxiVerif Require Import DD.Table DD.TableProofs DD.Build DD.BuildProofs
+  DD.Apply DD.ApplyProofs DD.Cache DD.CacheProofs
+  DD.ApplyTdd DD.ApplyTddBase DD.ApplyTddProofs DD.ApplyTddIte DD.ApplyTddTop DD.ApplyTddEval
+  DD.ApplyTddTree DD.ApplyTddExamples.
+
+(** the invariant [TdOK] (well-formed TDD table with exactly the terminals
+    False / Unknown / True) is what the extracted checker decides *)
+Theorem C11_snap_invariant_checker :
+  forall s, td_ok_b s = true <-> TdOK s.
+Proof. exact td_ok_b_spec. Qed.
+Print Assumptions C11_snap_invariant_checker.
+
+(** the hypotheses are satisfiable: the fresh two-variable manager, and a table
+    with 8 inner nodes built by the model itself together with the non-empty
+    cache the run left behind *)
+Theorem C11_snap_hypotheses_satisfiable :
+  TdOK tex0 /\ TCacheOK ac_get tex0 [] /\
+  TdOK tex1 /\ PositiveMap.cardinal (s_nodes tex1) = 8 /\
+  TCacheOK ac_get tex1 tex_c /\ tex_c <> [].
+Proof.
+  exact (conj tex0_ok (conj tex0_cache_ok (conj tex1_ok
+          (conj (proj1 (proj2 (proj2 (proj2 (proj2 (proj2 (proj2 tex_build_runs))))))) tex_cache_ok)))).
+Qed.
+Print Assumptions C11_snap_hypotheses_satisfiable.
+
+(** every stored reference denotes exactly one three-valued function, and two
+    references of one table that denote the same function are the same
+    reference (canonicity: handle equality = function equality) *)
+Theorem C11_snap_denotation :
+  (forall s r, TdOK s -> ref_ok s r -> exists phi, DenT s r phi) /\
+  (forall s r phi phi', DenT s r phi -> DenT s r phi' -> forall a, phi a = phi' a) /\
+  (forall s r1 r2 phi, TdOK s -> DenT s r1 phi -> DenT s r2 phi -> r1 = r2).
+Proof. exact (conj dent_exists (conj dent_unique dent_canon)). Qed.
+Print Assumptions C11_snap_denotation.
+
+(** constants f / u / t: the terminal with that value, which is THE reference of
+    the constant function *)
+Theorem C11_snap_constants : forall s v, TdOK s ->
+  exists t, td_const s v = Some (RT t) /\ DenT s (RT t) (fn_const v) /\
+    forall r0, DenT s r0 (fn_const v) -> r0 = RT t.
+Proof. exact td_const_ok. Qed.
+Print Assumptions C11_snap_constants.
+
+(** var: the node (level of the variable; True, Unknown, False) denotes the
+    projection; nothing is created if it exists *)
+Theorem C11_snap_var : forall s v, TdOK s -> v < nlevels s ->
+  exists lvl s' r, nth_error (s_v2l s) v = Some lvl /\ nth_error (s_l2v s) lvl = Some v /\
+    td_var s v = Some (s', r) /\ TdOK s' /\ extends s s' /\ DenT s' r (fn_var lvl) /\
+    (forall r0, DenT s r0 (fn_var lvl) -> s' = s /\ r = r0).
+Proof. exact td_var_ok. Qed.
+Print Assumptions C11_snap_var.
+
+(** every arm of [terminal_bin] on table references (8 operators, [f == g]
+    short-cuts, terminal short-cuts, operand normalisation, any edge order)
+    agrees with the operator's fixed table *)
+Theorem C11_snap_terminal_bin_sound :
+  forall (gt : ref -> ref -> bool) s op f g vf vg phi psi, TdOK s ->
+  DenT s f phi -> DenT s g psi -> td_view s f = Some vf -> td_view s g = Some vg ->
+  match td_tb gt s op f g vf vg with
+  | DDone r => DenT s r (fn_bin op phi psi)
+  | DNot r =>
+    (r = f /\ forall a, fn_bin op phi psi a = k_not (phi a)) \/
+    (r = g /\ forall a, fn_bin op phi psi a = k_not (psi a))
+  | DBin o a b =>
+    o = op /\ (is_term vf = false \/ is_term vg = false) /\ f <> g /\
+    ((a = f /\ b = g) \/ (a = g /\ b = f /\ commutative op = true))
+  | DFail => False
+  end.
+Proof. exact td_tb_sound. Qed.
+Print Assumptions C11_snap_terminal_bin_sound.
+
+(** every terminal short-cut of [apply_ite_rec] after the three equality tests
+    agrees with [ite3]; "no short-cut" only if not all operands are terminals *)
+Theorem C11_snap_ite_shortcuts_sound :
+  forall s f g h vf vg vh phi psi theta, TdOK s ->
+  DenT s f phi -> DenT s g psi -> DenT s h theta ->
+  td_view s f = Some vf -> td_view s g = Some vg -> td_view s h = Some vh ->
+  g <> h -> f <> g -> f <> h ->
+  match td_ite_sc s f g h vf vg vh with
+  | IDone r => DenT s r (fn_ite phi psi theta)
+  | IBin op a b =>
+    (a = f /\ b = g /\ forall x, fn_ite phi psi theta x = fn_bin op phi psi x) \/
+    (a = f /\ b = h /\ forall x, fn_ite phi psi theta x = fn_bin op phi theta x)
+  | INot a => a = f /\ forall x, fn_ite phi psi theta x = fn_not phi x
+  | IRec => is_term vf = false \/ is_term vg = false \/ is_term vh = false
+  | IFail => False
+  end.
+Proof. exact td_ite_sc_sound. Qed.
+Print Assumptions C11_snap_ite_shortcuts_sound.
+
+(** not: for every TdOK table, every correct cache of ANY implementation that
+    only serves what was added, and sufficient fuel, the run returns (never
+    fails) a reference denoting the pointwise Kleene negation; the table is
+    only extended; invariant and cache correctness are preserved; if the
+    result function already has a reference, that reference is returned and
+    the table is unchanged *)
+Theorem C11_snap_not_lifts :
+  forall (C : Type) cget cadd, lossy cget cadd ->
+  forall fuel s (c : C) f phi,
+  TdOK s -> TCacheOK cget s c -> DenT s f phi -> nlevels s - rlevel s f < fuel ->
+  exists s' c' r, td_apply_not C cget cadd fuel s c f = Some (s', c', r) /\
+    TdOK s' /\ extends s s' /\ TCacheOK cget s' c' /\ DenT s' r (fn_not phi) /\
+    (forall r0, DenT s r0 (fn_not phi) -> s' = s /\ r = r0).
+Proof. exact td_apply_not_ok. Qed.
+Print Assumptions C11_snap_not_lifts.
+
+(** and, or, nand, nor, xor, equiv, imp, imp_strict: the same against
+    [table op], for every edge order *)
+Theorem C11_snap_apply_bin_lifts :
+  forall (gt : ref -> ref -> bool) (C : Type) cget cadd, lossy cget cadd ->
+  forall op fuel s (c : C) f g phi psi,
+  TdOK s -> TCacheOK cget s c -> DenT s f phi -> DenT s g psi ->
+  nlevels s - Nat.min (rlevel s f) (rlevel s g) < fuel ->
+  exists s' c' r, td_apply_bin gt C cget cadd fuel s c op f g = Some (s', c', r) /\
+    TdOK s' /\ extends s s' /\ TCacheOK cget s' c' /\ DenT s' r (fn_bin op phi psi) /\
+    (forall r0, DenT s r0 (fn_bin op phi psi) -> s' = s /\ r = r0).
+Proof. exact td_apply_bin_ok. Qed.
+Print Assumptions C11_snap_apply_bin_lifts.
+
+(** ite against [ite3] *)
+Theorem C11_snap_apply_ite_lifts :
+  forall (gt : ref -> ref -> bool) (C : Type) cget cadd, lossy cget cadd ->
+  forall fuel s (c : C) f g h phi psi theta,
+  TdOK s -> TCacheOK cget s c -> DenT s f phi -> DenT s g psi -> DenT s h theta ->
+  nlevels s - Nat.min (Nat.min (rlevel s f) (rlevel s g)) (rlevel s h) < fuel ->
+  exists s' c' r, td_apply_ite gt C cget cadd fuel s c f g h = Some (s', c', r) /\
+    TdOK s' /\ extends s s' /\ TCacheOK cget s' c' /\ DenT s' r (fn_ite phi psi theta) /\
+    (forall r0, DenT s r0 (fn_ite phi psi theta) -> s' = s /\ r = r0).
+Proof. exact td_apply_ite_ok. Qed.
+Print Assumptions C11_snap_apply_ite_lifts.
+
+(** the same in terms of the interpreter only: the value of the result under
+    every three-valued assignment is the fixed table applied to the operands'
+    values *)
+Theorem C11_snap_not_pointwise :
+  forall (C : Type) cget cadd, lossy cget cadd ->
+  forall fuel s (c : C) f,
+  TdOK s -> TCacheOK cget s c -> ref_ok s f -> FUEL s <= fuel ->
+  exists s' c' r, td_apply_not C cget cadd fuel s c f = Some (s', c', r) /\
+    TdOK s' /\ extends s s' /\ TCacheOK cget s' c' /\ ref_ok s' r /\
+    forall a : assignment, exists x,
+      tvalue s f (chc a) x /\ tvalue s' r (chc a) (k_not x).
+Proof. exact td_apply_not_sound. Qed.
+Print Assumptions C11_snap_not_pointwise.
+
+Theorem C11_snap_apply_bin_pointwise :
+  forall (gt : ref -> ref -> bool) (C : Type) cget cadd, lossy cget cadd ->
+  forall op fuel s (c : C) f g,
+  TdOK s -> TCacheOK cget s c -> ref_ok s f -> ref_ok s g -> FUEL s <= fuel ->
+  exists s' c' r, td_apply_bin gt C cget cadd fuel s c op f g = Some (s', c', r) /\
+    TdOK s' /\ extends s s' /\ TCacheOK cget s' c' /\ ref_ok s' r /\
+    forall a : assignment, exists x y,
+      tvalue s f (chc a) x /\ tvalue s g (chc a) y /\ tvalue s' r (chc a) (table op x y).
+Proof. exact td_apply_bin_sound. Qed.
+Print Assumptions C11_snap_apply_bin_pointwise.
+
+Theorem C11_snap_apply_ite_pointwise :
+  forall (gt : ref -> ref -> bool) (C : Type) cget cadd, lossy cget cadd ->
+  forall fuel s (c : C) f g h,
+  TdOK s -> TCacheOK cget s c -> ref_ok s f -> ref_ok s g -> ref_ok s h -> FUEL s <= fuel ->
+  exists s' c' r, td_apply_ite gt C cget cadd fuel s c f g h = Some (s', c', r) /\
+    TdOK s' /\ extends s s' /\ TCacheOK cget s' c' /\ ref_ok s' r /\
+    forall a : assignment, exists x y z,
+      tvalue s f (chc a) x /\ tvalue s g (chc a) y /\ tvalue s h (chc a) z /\
+      tvalue s' r (chc a) (ite3 x y z).
+Proof. exact td_apply_ite_sound. Qed.
+Print Assumptions C11_snap_apply_ite_pointwise.
+
+(** ... and in terms of three-valued assignments of the VARIABLES under the
+    table's variable order ([tfun_of s r] : (variable -> tri) -> tri) *)
+Theorem C11_snap_handles_assignments :
+  (forall s v, TdOK s ->
+     exists r, td_const s v = Some r /\ ref_ok s r /\ forall av, tfun_of s r av = v) /\
+  (forall s v, TdOK s -> v < nlevels s ->
+     exists s' r, td_var s v = Some (s', r) /\ TdOK s' /\ extends s s' /\ ref_ok s' r /\
+       forall av, tfun_of s' r av = av v) /\
+  (forall (C : Type) cget cadd, lossy cget cadd -> forall s (c : C) f,
+     TdOK s -> TCacheOK cget s c -> ref_ok s f ->
+     exists s' c' r, td_apply_not C cget cadd (FUEL s) s c f = Some (s', c', r) /\
+       TdOK s' /\ extends s s' /\ ref_ok s' r /\
+       forall av, tfun_of s' r av = k_not (tfun_of s f av)) /\
+  (forall (gt : ref -> ref -> bool) (C : Type) cget cadd, lossy cget cadd -> forall op s (c : C) f g,
+     TdOK s -> TCacheOK cget s c -> ref_ok s f -> ref_ok s g ->
+     exists s' c' r, td_apply_bin gt C cget cadd (FUEL s) s c op f g = Some (s', c', r) /\
+       TdOK s' /\ extends s s' /\ ref_ok s' r /\
+       forall av, tfun_of s' r av = table op (tfun_of s f av) (tfun_of s g av)) /\
+  (forall (gt : ref -> ref -> bool) (C : Type) cget cadd, lossy cget cadd -> forall s (c : C) f g h,
+     TdOK s -> TCacheOK cget s c -> ref_ok s f -> ref_ok s g -> ref_ok s h ->
+     exists s' c' r, td_apply_ite gt C cget cadd (FUEL s) s c f g h = Some (s', c', r) /\
+       TdOK s' /\ extends s s' /\ ref_ok s' r /\
+       forall av, tfun_of s' r av = ite3 (tfun_of s f av) (tfun_of s g av) (tfun_of s h av)).
+Proof.
+  exact (conj td_const_tfun (conj td_var_tfun (conj td_apply_not_tfun
+          (conj td_apply_bin_tfun td_apply_ite_tfun)))).
+Qed.
+Print Assumptions C11_snap_handles_assignments.
+
+(** cofactors are the children in the order true, unknown, false = the three
+    restrictions w.r.t. the root's level, which is a level the function
+    depends on while it ignores all levels above it *)
+Theorem C11_snap_cofactors : forall s r phi, TdOK s -> DenT s r phi ->
+  match r with
+  | RT _ => td_cofactors s r = None
+  | RN id =>
+    exists nd t u e, find_node s id = Some nd /\ td_cofactors s r = Some (t, u, e) /\
+      DenT s t (fn_restrict phi (nlevel nd) TT) /\
+      DenT s u (fn_restrict phi (nlevel nd) TU) /\
+      DenT s e (fn_restrict phi (nlevel nd) TF) /\
+      ~ (t = u /\ u = e) /\ indepT phi (nlevel nd) /\
+      nlevel nd < rlevel s t /\ nlevel nd < rlevel s u /\ nlevel nd < rlevel s e
+  end.
+Proof. exact td_cofactors_ok. Qed.
+Print Assumptions C11_snap_cofactors.
+
+(** eval: the walk over the bit-packed choices vector of [eval_edge] equals the
+    walk over the abstract level -> child map, which computes the function of
+    the reference under the assignment denoted by the argument list; for a
+    complete, consistent argument list (any order, repetitions) this is the
+    value of the handle's function at that assignment of the variables *)
+Theorem C11_snap_eval :
+  (forall s r args, WF s -> td_eval s r args = td_eval_abs s r args) /\
+  (forall s r phi args largs, TdOK s -> DenT s r phi -> td_level_args s args = Some largs ->
+     td_eval s r args = Some (phi (assignment_of largs (fun _ => TT)))) /\
+  (forall s r (av : nat -> tri) args, TdOK s -> ref_ok s r ->
+     (forall v x, In (v, x) args -> x = av v /\ v < nlevels s) ->
+     (forall v, v < nlevels s -> In v (map fst args)) ->
+     td_eval s r args = Some (tfun_of s r av)).
+Proof. exact (conj td_eval_packed_eq (conj td_eval_ok td_eval_assignment)). Qed.
+Print Assumptions C11_snap_eval.
+
+(** cache transparency: two runs on the same table with arbitrary correct
+    caches of arbitrary implementations and arbitrary edge orders return
+    results with the same meaning *)
+Theorem C11_snap_cache_transparent :
+  forall (gt1 gt2 : ref -> ref -> bool) (C1 C2 : Type) cget1 cadd1 cget2 cadd2,
+  lossy cget1 cadd1 -> lossy cget2 cadd2 ->
+  forall op s (c1 : C1) (c2 : C2) f g fuel1 fuel2 s1 c1' r1 s2 c2' r2,
+  TdOK s -> TCacheOK cget1 s c1 -> TCacheOK cget2 s c2 -> ref_ok s f -> ref_ok s g ->
+  FUEL s <= fuel1 -> FUEL s <= fuel2 ->
+  td_apply_bin gt1 C1 cget1 cadd1 fuel1 s c1 op f g = Some (s1, c1', r1) ->
+  td_apply_bin gt2 C2 cget2 cadd2 fuel2 s c2 op f g = Some (s2, c2', r2) ->
+  forall a : assignment, semk s1 (FUEL s1) r1 (chc a) = semk s2 (FUEL s2) r2 (chc a).
+Proof. exact td_apply_bin_cache_transparent. Qed.
+Print Assumptions C11_snap_cache_transparent.
+
+(** history independence: repeating the operation in ANY later state of the
+    table (more nodes, any correct cache of any implementation, any edge
+    order) returns the identical reference and leaves the table unchanged *)
+Theorem C11_snap_not_history_independent :
+  forall (C1 C2 : Type) cget1 cadd1 cget2 cadd2, lossy cget1 cadd1 -> lossy cget2 cadd2 ->
+  forall s (c1 : C1) f fuel1 s1 c1' r1,
+  TdOK s -> TCacheOK cget1 s c1 -> ref_ok s f -> FUEL s <= fuel1 ->
+  td_apply_not C1 cget1 cadd1 fuel1 s c1 f = Some (s1, c1', r1) ->
+  forall s2 (c2 : C2) fuel2, TdOK s2 -> extends s1 s2 -> TCacheOK cget2 s2 c2 -> FUEL s2 <= fuel2 ->
+  exists c2', td_apply_not C2 cget2 cadd2 fuel2 s2 c2 f = Some (s2, c2', r1).
+Proof. exact td_apply_not_history_independent. Qed.
+Print Assumptions C11_snap_not_history_independent.
+
+Theorem C11_snap_apply_bin_history_independent :
+  forall (gt1 gt2 : ref -> ref -> bool) (C1 C2 : Type) cget1 cadd1 cget2 cadd2,
+  lossy cget1 cadd1 -> lossy cget2 cadd2 ->
+  forall op s (c1 : C1) f g fuel1 s1 c1' r1,
+  TdOK s -> TCacheOK cget1 s c1 -> ref_ok s f -> ref_ok s g -> FUEL s <= fuel1 ->
+  td_apply_bin gt1 C1 cget1 cadd1 fuel1 s c1 op f g = Some (s1, c1', r1) ->
+  forall s2 (c2 : C2) fuel2, TdOK s2 -> extends s1 s2 -> TCacheOK cget2 s2 c2 -> FUEL s2 <= fuel2 ->
+  exists c2', td_apply_bin gt2 C2 cget2 cadd2 fuel2 s2 c2 op f g = Some (s2, c2', r1).
+Proof. exact td_apply_bin_history_independent. Qed.
+Print Assumptions C11_snap_apply_bin_history_independent.
+
+Theorem C11_snap_apply_ite_history_independent :
+  forall (gt1 gt2 : ref -> ref -> bool) (C1 C2 : Type) cget1 cadd1 cget2 cadd2,
+  lossy cget1 cadd1 -> lossy cget2 cadd2 ->
+  forall s (c1 : C1) f g h fuel1 s1 c1' r1,
+  TdOK s -> TCacheOK cget1 s c1 -> ref_ok s f -> ref_ok s g -> ref_ok s h -> FUEL s <= fuel1 ->
+  td_apply_ite gt1 C1 cget1 cadd1 fuel1 s c1 f g h = Some (s1, c1', r1) ->
+  forall s2 (c2 : C2) fuel2, TdOK s2 -> extends s1 s2 -> TCacheOK cget2 s2 c2 -> FUEL s2 <= fuel2 ->
+  exists c2', td_apply_ite gt2 C2 cget2 cadd2 fuel2 s2 c2 f g h = Some (s2, c2', r1).
+Proof. exact td_apply_ite_history_independent. Qed.
+Print Assumptions C11_snap_apply_ite_history_independent.
+
+(** result uniqueness: in its result table the returned reference is THE
+    reference whose value under every assignment is the table's value *)
+Theorem C11_snap_result_unique :
+  (forall (gt : ref -> ref -> bool) (C : Type) cget cadd, lossy cget cadd ->
+   forall op fuel s (c : C) f g s' c' r,
+   TdOK s -> TCacheOK cget s c -> ref_ok s f -> ref_ok s g -> FUEL s <= fuel ->
+   td_apply_bin gt C cget cadd fuel s c op f g = Some (s', c', r) ->
+   forall r0, ref_ok s' r0 ->
+     (forall a : assignment, exists x y,
+         tvalue s f (chc a) x /\ tvalue s g (chc a) y /\ tvalue s' r0 (chc a) (table op x y)) ->
+     r0 = r) /\
+  (forall (gt : ref -> ref -> bool) (C : Type) cget cadd, lossy cget cadd ->
+   forall fuel s (c : C) f g h s' c' r,
+   TdOK s -> TCacheOK cget s c -> ref_ok s f -> ref_ok s g -> ref_ok s h -> FUEL s <= fuel ->
+   td_apply_ite gt C cget cadd fuel s c f g h = Some (s', c', r) ->
+   forall r0, ref_ok s' r0 ->
+     (forall a : assignment, exists x y z,
+         tvalue s f (chc a) x /\ tvalue s g (chc a) y /\ tvalue s h (chc a) z /\
+         tvalue s' r0 (chc a) (ite3 x y z)) ->
+     r0 = r).
+Proof. exact (conj td_apply_bin_result_unique td_apply_ite_result_unique). Qed.
+Print Assumptions C11_snap_result_unique.
+
+(** the cache models are instances of the abstract cache: the unbounded
+    association list, the cache that stores nothing, and the direct-mapped
+    lossy cache of oxidd-cache (DD/Cache.v) for any hash function; their empty
+    states are correct caches *)
+Theorem C11_snap_cache_instances :
+  lossy ac_get ac_add /\ lossy nc_get nc_add /\
+  (forall hash, lossy (dmr_get hash) (dmr_add hash)) /\
+  (forall s, TCacheOK ac_get s []) /\ (forall s c, TCacheOK nc_get s c) /\
+  (forall hash s nb cap, TCacheOK (dmr_get hash) s (dm_init nb cap)) /\
+  (forall hash s c, TCacheOK (dmr_get hash) s (dm_clear c)).
+Proof.
+  exact (conj ac_lossy (conj nc_lossy (conj dmr_lossy (conj tac_empty_ok (conj tnc_ok
+          (conj tdm_init_ok tdm_clear_ok)))))).
+Qed.
+Print Assumptions C11_snap_cache_instances.
+
+(** the tree model of the first part is the unfolding of the table model:
+    every reference unfolds to an ordered, reduced, level-bounded tree with the
+    reference's function; the tree determines the reference (hash-consing =
+    structural equality of the trees) *)
+Theorem C11_snap_unfold :
+  (forall s r phi, TdOK s -> DenT s r phi ->
+     exists t, unfoldT s r = Some t /\ (forall a, Tdd.sem t a = phi a) /\
+       TddBasic.ordered t /\ TddBasic.reduced t /\ TddBasic.below (nlevels s) t) /\
+  (forall s r1 r2 t, TdOK s -> ref_ok s r1 -> ref_ok s r2 ->
+     unfoldT s r1 = Some t -> unfoldT s r2 = Some t -> r1 = r2) /\
+  (forall s s' r, TdOK s -> TdOK s' -> extends s s' -> ref_ok s r -> unfoldT s' r = unfoldT s r).
+Proof. exact (conj unfoldT_ok (conj td_unfold_inj td_unfold_extends)). Qed.
+Print Assumptions C11_snap_unfold.
+
+(** ... and the table algorithms commute with unfolding: the result of the
+    table algorithm (any cache, any cache contents, any edge order) unfolds to
+    the result of the tree algorithm of DD/Tdd.v (any tree edge order) on the
+    unfolded operands *)
+Theorem C11_snap_tree_model :
+  forall (gt : ref -> ref -> bool) (gtt : tdd -> tdd -> bool) (C : Type) cget cadd, lossy cget cadd ->
+  (forall fuel s (c : C) f s' c' r,
+     TdOK s -> TCacheOK cget s c -> ref_ok s f -> FUEL s <= fuel ->
+     td_apply_not C cget cadd fuel s c f = Some (s', c', r) ->
+     exists tf, unfoldT s f = Some tf /\ unfoldT s' r = Some (Tdd.apply_not tf)) /\
+  (forall op fuel s (c : C) f g s' c' r,
+     TdOK s -> TCacheOK cget s c -> ref_ok s f -> ref_ok s g -> FUEL s <= fuel ->
+     td_apply_bin gt C cget cadd fuel s c op f g = Some (s', c', r) ->
+     exists tf tg, unfoldT s f = Some tf /\ unfoldT s g = Some tg /\
+       unfoldT s' r = Tdd.apply_bin_auto gtt op tf tg) /\
+  (forall fuel s (c : C) f g h s' c' r,
+     TdOK s -> TCacheOK cget s c -> ref_ok s f -> ref_ok s g -> ref_ok s h -> FUEL s <= fuel ->
+     td_apply_ite gt C cget cadd fuel s c f g h = Some (s', c', r) ->
+     exists tf tg th, unfoldT s f = Some tf /\ unfoldT s g = Some tg /\ unfoldT s h = Some th /\
+       unfoldT s' r = Tdd.apply_ite_auto gtt tf tg th).
+Proof.
+  exact (fun gt gtt C cget cadd L =>
+    conj (td_apply_not_tree C cget cadd L)
+      (conj (td_apply_bin_tree gt gtt C cget cadd L) (td_apply_ite_tree gt gtt C cget cadd L))).
+Qed.
+Print Assumptions C11_snap_tree_model.
+
+Definition C11_pin_3 : forall (gt : ref -> ref -> bool) (C : Type) cget cadd, lossy cget cadd ->
+  forall op fuel s (c : C) f g phi psi,
+  TdOK s -> TCacheOK cget s c -> DenT s f phi -> DenT s g psi ->
+  nlevels s - Nat.min (rlevel s f) (rlevel s g) < fuel ->
+  exists s' c' r, td_apply_bin gt C cget cadd fuel s c op f g = Some (s', c', r) /\
+    TdOK s' /\ extends s s' /\ TCacheOK cget s' c' /\ DenT s' r (fn_bin op phi psi) /\
+    (forall r0, DenT s r0 (fn_bin op phi psi) -> s' = s /\ r = r0) := C11_snap_apply_bin_lifts.
